@@ -984,3 +984,122 @@ Proof.
   - intro Hp. apply H1. exact Hp.
   - intro Hc. destruct (d_partial R) eqn:Ep; [|reflexivity]. exfalso. apply (proj1 (H2 eq_refl)). exact Hc.
 Qed.
+
+(* ---------- to_partial(minify=False) ---------- *)
+Lemma assoc_filter_snd (f : nat -> bool) (row : list (nat * nat)) a : NoDup (map fst row) ->
+  assoc a (filter (fun p => f (snd p)) row) =
+  match assoc a row with Some t => if f t then Some t else None | None => None end.
+Proof.
+  induction row as [|[k v] r IH]; intro Hn; simpl; [reflexivity|].
+  inversion Hn as [|? ? Hk Hn']; subst. specialize (IH Hn').
+  destruct (f v) eqn:Ef; simpl.
+  - destruct (Nat.eqb a k) eqn:E; [rewrite Ef; reflexivity|exact IH].
+  - destruct (Nat.eqb a k) eqn:E; [|exact IH].
+    apply Nat.eqb_eq in E. subst a. rewrite Ef. rewrite IH.
+    assert (H : assoc k r = None) by (apply assoc_None; exact Hk). rewrite H. reflexivity.
+Qed.
+
+Lemma assoc_rows_filter {B} (g : B -> B) (K : list nat) (T : list (nat * B)) q :
+  assoc q (map (fun r => (fst r, g (snd r))) (filter (fun r => memb (fst r) K) T)) =
+  if memb q K then option_map g (assoc q T) else None.
+Proof.
+  induction T as [|[k v] T IH]; simpl; [destruct (memb q K); reflexivity|].
+  destruct (memb k K) eqn:Ek; simpl.
+  - destruct (Nat.eqb q k) eqn:E.
+    + apply Nat.eqb_eq in E. subst. rewrite Ek. reflexivity.
+    + exact IH.
+  - destruct (Nat.eqb q k) eqn:E; [|exact IH].
+    apply Nat.eqb_eq in E. subst. rewrite Ek. rewrite IH. rewrite Ek. reflexivity.
+Qed.
+
+Lemma map_fst_rows_filter {B} (g : B -> B) (K : list nat) (T : list (nat * B)) :
+  map fst (map (fun r => (fst r, g (snd r))) (filter (fun r => memb (fst r) K) T)) =
+  filter (fun k => memb k K) (map fst T).
+Proof.
+  induction T as [|[k v] T IH]; simpl; [reflexivity|]. destruct (memb k K); simpl; rewrite IH; reflexivity.
+Qed.
+
+Lemma map_fst_filter_incl {B} (f : nat * B -> bool) (row : list (nat * B)) : 
+  forall x, In x (map fst (filter f row)) -> In x (map fst row).
+Proof.
+  intros x H. apply in_map_iff in H. destruct H as [p [E Hp]]. apply filter_In in Hp.
+  apply in_map_iff. exists p. tauto.
+Qed.
+
+Lemma map_fst_filter_NoDup {B} (f : nat * B -> bool) (row : list (nat * B)) :
+  NoDup (map fst row) -> NoDup (map fst (filter f row)).
+Proof.
+  induction row as [|p r IH]; simpl; intro Hn; [constructor|]. inversion Hn; subst.
+  destruct (f p); simpl; [|apply IH; assumption]. constructor; [|apply IH; assumption].
+  intro H. apply map_fst_filter_incl in H. contradiction.
+Qed.
+
+Section ToPartialPlain.
+  Variable m : dfa.
+  Hypothesis Hv : valid_dfa m = true.
+
+  Theorem to_partial_plain_ok : exists P, to_partial_plain m = Ok P /\
+    valid_dfa P = true /\ d_syms P = d_syms m /\ d_partial P = true /\ lang_same P m /\
+    (forall q, In q (d_states P) <-> q = d_init m \/ (reachable m q /\ coaccessible m q)).
+  Proof.
+    destruct (reach_states_ok m Hv) as [R [ER HR]]. destruct (coacc_states_ok m Hv) as [C [EC HC]].
+    destruct (kept_live_good m Hv) as [K [EK [HK HKs]]].
+    assert (EK' : K = set_of (d_init m :: filter (fun q => memb q C) R)).
+    { unfold kept_live in EK. rewrite ER, EC in EK. simpl in EK. inversion EK. reflexivity. }
+    unfold to_partial_plain. rewrite ER, EC. cbn [bind]. cbv zeta. rewrite <- EK'.
+    set (P := mkdfa K (d_syms m)
+                (map (fun r => (fst r, filter (fun p => memb (snd p) C) (snd r)))
+                     (filter (fun r => memb (fst r) K) (d_trans m)))
+                (d_init m) (filter (fun q => memb q K) (d_finals m)) true).
+    destruct (valid_dfa_parts m Hv) as (Hst & Hsy & Hkeys & Hrows & Hrok & Hinit & Hfin).
+    assert (Kreach : forall q, In q K -> reachable m q).
+    { intros q Hq. apply HKs in Hq. destruct Hq as [->|[Hq _]]; [apply reach_init; left; reflexivity|exact Hq]. }
+    assert (Hrow : forall q, In q K -> exists row, d_row m q = Some row /\
+                     d_row P q = Some (filter (fun p => memb (snd p) C) row)).
+    { intros q Hq. destruct (state_has_row m Hv q (gk_states m K HK q Hq)) as [row Er]. exists row.
+      split; [exact Er|]. unfold d_row in *. simpl d_trans.
+      rewrite (assoc_rows_filter (filter (fun p => memb (snd p) C)) K (d_trans m) q).
+      apply memb_In in Hq. rewrite Hq, Er. reflexivity. }
+    assert (Hdelta : forall q a, In q K -> d_delta P q a =
+               match d_delta m q a with Some t => if memb t C then Some t else None | None => None end).
+    { intros q a Hq. destruct (Hrow q Hq) as [row [Er Ep]]. unfold d_delta. rewrite Ep, Er.
+      apply (assoc_filter_snd (fun t => memb t C) row a (row_keys_NoDup m Hv q row Er)). }
+    assert (Hstep : forall q a t, In q K -> d_delta m q a = Some t -> memb t C = true -> In t K).
+    { intros q a t Hq E Ec. apply HKs. right. split; [|apply HC; apply memb_In; exact Ec].
+      eapply reach_step; [apply Kreach; exact Hq|]. apply (succs_edge m Hv). exists a. exact E. }
+    exists P. split; [reflexivity|]. split; [|split; [reflexivity|split; [reflexivity|split; [|exact HKs]]]].
+    - (* validity *)
+      unfold valid_dfa. repeat (apply andb_true_iff; split).
+      + apply nodupb_NoDup. apply ssorted_NoDup. apply (gk_sorted m K HK).
+      + apply nodupb_NoDup. exact Hsy.
+      + apply nodupb_NoDup. simpl d_trans. rewrite map_fst_rows_filter. apply NoDup_filter. exact Hkeys.
+      + apply forallb_forall. intros q Hq. simpl in Hq. apply memb_In. simpl d_trans. rewrite map_fst_rows_filter.
+        apply filter_In. split; [apply Hrows; apply (gk_states m K HK); exact Hq|apply memb_In; exact Hq].
+      + apply forallb_forall. intros [q prow] Hin. simpl in Hin. apply in_map_iff in Hin.
+        destruct Hin as [[q' row] [E Hin]]. simpl in E. inversion E; subst q' prow. clear E.
+        apply filter_In in Hin. destruct Hin as [Hin Hq]. simpl in Hq. apply memb_In in Hq. simpl snd.
+        pose proof (Hrok q row Hin) as Hok. unfold row_ok in Hok. repeat rewrite andb_true_iff in Hok.
+        destruct Hok as [[Hnd Hall] _]. rewrite forallb_forall in Hall.
+        assert (Er : d_row m q = Some row) by (unfold d_row; apply assoc_NoDup; assumption).
+        unfold row_ok. repeat (apply andb_true_iff; split); [| |reflexivity].
+        * apply nodupb_NoDup. apply map_fst_filter_NoDup. apply nodupb_NoDup. exact Hnd.
+        * apply forallb_forall. intros [a t] Hp. apply filter_In in Hp. destruct Hp as [Hp Hc]. simpl in Hc.
+          specialize (Hall _ Hp). simpl in Hall. apply andb_true_iff in Hall. destruct Hall as [Ha _].
+          simpl. rewrite Ha. simpl. apply memb_In. apply (Hstep q a t Hq); [|exact Hc].
+          unfold d_delta. rewrite Er. apply assoc_NoDup; [apply nodupb_NoDup; exact Hnd|exact Hp].
+      + apply memb_In. apply (gk_init m K HK).
+      + apply subsetb_incl. intros q Hq. simpl in Hq. apply filter_In in Hq. apply memb_In. tauto.
+    - (* language *)
+      assert (Hacc : forall w q, In q K -> dfa_acc_from P (Some q) w = dfa_acc_from m (Some q) w).
+      { induction w as [|a w IH]; intros q Hq; unfold dfa_acc_from.
+        - simpl. apply eq_iff_eq_true. rewrite !memb_In, filter_In, memb_In. tauto.
+        - simpl. rewrite (Hdelta q a Hq). destruct (d_delta m q a) as [t|] eqn:E.
+          + destruct (memb t C) eqn:Ec.
+            * apply IH. apply (Hstep q a t Hq E Ec).
+            * rewrite dfa_run_None. simpl. symmetry.
+              destruct (ofinal m (dfa_run m (Some t) w)) eqn:Ea; [exfalso|reflexivity].
+              apply memb_false in Ec. apply Ec. apply HC. apply (accepting_coacc m Hv w t). exact Ea.
+          + rewrite !dfa_run_None. reflexivity. }
+      intro w. apply (Hacc w (d_init m) (gk_init m K HK)).
+  Qed.
+End ToPartialPlain.
